@@ -5,6 +5,8 @@
 import BufrModel.Msg.Stream
 import BufrModel.Spec.Frame
 import BufrModel.Gen.PyConstants
+import BufrModel.Gen.PyDecoder
+import BufrModel.Lemmas.StreamSrc
 namespace Bufr
 open PyGen.constants
 
@@ -12,3 +14,49 @@ theorem C12_src_const_start_signature : Stream.sig = MESSAGE_START_SIGNATURE := 
 theorem C12_src_const_stop_signature : stopSig = MESSAGE_STOP_SIGNATURE := by decide
 
 end Bufr
+
+namespace Bufr.Stream
+open PyGen.decoder PyGen.decoder.generate_bufr_message
+
+/-- **Continue-on-error, read off the translated source** (`Gen/PyDecoder.lean`, regenerated from
+    `decoder.generate_bufr_message` on every check).  At a signature found at `j + k` (scan position `j`), without a
+    filter and with `continue_on_error`, when the decode fails with a library error one iteration of the translated
+    loop does not raise, yields nothing, and moves the scan position to `j + k + resumeBy`: `+ 1` in info-only mode,
+    otherwise `+ length.value` of a metadata-only decode at the same place, `+ 1` when that fails too (`h2`: with a
+    library error; a non-library exception there leaves the generator, see `C11_src_generate_eq`). -/
+theorem C12_src_resume_policy (env : Env) (s : Bytes) (io : Bool) (fe : Option (List Char)) (sro : Option Py.Obj)
+    (v : Locals) (j k : Nat) (hinv : Inv s io true fe sro v j) (hj : j ≤ s.length)
+    (hk : findSig (s.drop j) = some k) (hft : Py.truthyOptSeq fe = false) (e : Py.Exc)
+    (hfail : env.decoder_process (s.drop (j + k)) io = .error e) (hlib : env.isinstance_PyBufrKitError e = true)
+    (h2 : ∀ e2, io = false → env.decoder_process (s.drop (j + k)) true = .error e2 → env.isinstance_PyBufrKitError e2 = true) :
+    ∃ v', while_1.body env v = .next v' ∧ v'.idx_start = ((j + k : Nat) : Int) + resumeBy env io (s.drop (j + k)) ∧
+      v'.py_yields = v.py_yields ∧ v'.s = s ∧ v'.info_only = io ∧ v'.continue_on_error = true :=
+  resume_step env s io fe sro v j k hinv hj hk hft e hfail hlib h2
+
+/-- the same policy is the model's `step` (the function `C12_isolation` and the other stream theorems are about): one
+    iteration of the translated loop at a found signature = `step`, for every flag combination and all callbacks -/
+theorem C12_src_step_eq (env : Env) (hcb : CbOk env) (s : Bytes) (io coe : Bool) (fe : Option (List Char))
+    (sro : Option Py.Obj) (sr : Py.Obj) (hsro : Py.truthyOptSeq fe = true → sro = some sr)
+    (v : Locals) (j k : Nat) (hinv : Inv s io coe fe sro v j) (hj : j ≤ s.length)
+    (hk : findSig (s.drop j) = some k) :
+    StepOk env s io coe fe sro v (j + k) (step (srcDec env) (srcCfg env io coe fe sr) (s.drop (j + k)))
+      (while_1.body env v) :=
+  body_step env hcb s io coe fe sro sr hsro v j k hinv hj hk
+
+/-- an exception that is not a `PyBufrKitError` is not caught by the handler, whatever `continue_on_error` says: the
+    model's `Err.isLib` is exactly `isinstance(e, PyBufrKitError)` of the translated `except` clause -/
+theorem C12_src_library_error_class (env : Env) (e : Py.Exc) :
+    (srcErr env e).isLib = env.isinstance_PyBufrKitError e := srcErr_isLib env e
+
+/-- the hypotheses of `C12_src_resume_policy` are satisfiable -/
+example : ∃ (env : Env) (s : Bytes) (v : Locals) (e : Py.Exc), Inv s false true none none v 0 ∧
+    findSig (s.drop 0) = some 0 ∧ env.decoder_process (s.drop (0 + 0)) false = .error e ∧
+    env.isinstance_PyBufrKitError e = true :=
+  ⟨{ ScriptRunner := fun _ => .ok {}, decoder_process := fun _ _ => .error (.raised "PyBufrKitError"),
+     sr_run := fun _ _ => .ok true, table_definition_process := fun _ => .ok ({}, {}, {}),
+     table_cache_invalidate := .ok (), table_cache_add_extra_entries := fun _ _ => .ok (),
+     isinstance_PyBufrKitError := fun _ => true },
+   sig, ⟨sig, false, true, none, none, 0, false, default, {}, {}, {}, default, []⟩, .raised "PyBufrKitError",
+   ⟨rfl, rfl, rfl, rfl, rfl, rfl⟩, by decide, rfl, rfl⟩
+
+end Bufr.Stream
